@@ -84,7 +84,17 @@ func (g *G) Comparison(ctx *xdoc.Node) *xast.Bin {
 	case 6, 7:
 		return flip(&xast.Bin{Op: g.pick(eqOps, "op"), L: ns(), R: g.StrOperand(ctx)})
 	default:
-		return &xast.Bin{Op: g.pick(eqOps, "op"), L: ns(), R: ns()}
+		l, r := ns(), ns()
+		if g.chance(4, "bigset") {
+			// a large operand: the pairing loops must look at every pair, however late it comes
+			big := &xast.Path{Abs: true, Steps: []interface{}{xast.DSlash{}, &xast.Step{Axis: g.pick([]string{"child", "child", "attribute"}, "bigaxis"), Test: xast.NodeTest{Kind: g.pick([]string{"node", "wild", "wild"}, "bigtest")}, Abbr: true}}}
+			if rapid.Bool().Draw(g.T, "bigside") {
+				l = big
+			} else {
+				r = big
+			}
+		}
+		return &xast.Bin{Op: g.pick(eqOps, "op"), L: l, R: r}
 	}
 }
 
@@ -213,6 +223,9 @@ func (g *G) Arith(ctx *xdoc.Node, depth int) xast.Expr {
 		case 4:
 			return &xast.Call{Name: "string-length", Args: []xast.Expr{g.FlatPath(base)}}
 		}
+		if g.chance(4, "randlit") {
+			return &xast.Num{Lit: g.NumLit()}
+		}
 		return &xast.Num{Lit: g.pick(arithLits, "alit")}
 	}
 	switch g.intn(10, "arith") {
@@ -234,6 +247,30 @@ func (g *G) Arith(ctx *xdoc.Node, depth int) xast.Expr {
 		return &xast.Call{Name: "number", Args: []xast.Expr{g.Arith(ctx, depth-1)}}
 	}
 	return g.Arith(ctx, 0)
+}
+
+// NumLit draws a number literal digit by digit: optional integer part (0-4 digits,
+// possibly with leading zeros), optional fraction (0-5 digits); forms 12, 12., 12.34, .34.
+func (g *G) NumLit() string {
+	digits := func(n int, label string) string {
+		out := ""
+		for i := 0; i < n; i++ {
+			out += string(rune('0' + g.intn(10, label)))
+		}
+		return out
+	}
+	ip := digits(g.intn(5, "intdigits"), "idigit")
+	fp := digits(g.intn(6, "fracdigits"), "fdigit")
+	switch {
+	case ip == "" && fp == "":
+		return "0"
+	case fp == "":
+		if g.chance(2, "trailingdot") {
+			return ip + "."
+		}
+		return ip
+	}
+	return ip + "." + fp
 }
 
 // FiniteSmall reports whether string() of v is claimed by C08.
